@@ -139,6 +139,106 @@ func (m *M) opExtend(t *rapid.T) {
 	}
 }
 
+// opBulk (real depth): the best chain grows by 900..2600 headers in one step, as during catch-up
+// after a restart, so that a later Clean/Save starts in the middle of a header file and crosses one
+// or more file boundaries, and a second prune follows the first. The headers are submitted without
+// the per-submission oracles; the full oracles run once at the end of the step.
+func (m *M) opBulk(t *rapid.T) {
+	if !m.f.RealDepth {
+		t.Skip("real depth only")
+	}
+	if m.bulks >= 3 {
+		t.Skip("enough bulk growth")
+	}
+	n := rapid.SampledFrom([]int{900, 1000, 1001, 1500, 2100, 2600}).Draw(t, "bulk")
+	m.bulks++
+	m.k.Op("bulk growth of the best chain by %d", n)
+	m.k.Class("bulk_growth")
+	cur := m.reported(m.insts[0])
+	for i := 0; i < n; i++ {
+		raw := m.newHeader(cur.Hash, cur.Raw.Timestamp, 0x1d00ffff)
+		node := m.tree.AddChild(raw)
+		if m.bulk == nil {
+			m.bulk = model.Set{}
+		}
+		m.bulk[node] = true
+		for _, inst := range m.insts {
+			parent := cur
+			var err error
+			var pn interface{}
+			if m.f.Stream && len(inst.subs) > 0 {
+				done := make(chan struct{})
+				go func() {
+					defer close(done)
+					pn = vt.Catch(func() { err = inst.repo.ProcessHeader(vt.Ctx(), toWire(&raw)) })
+				}()
+				m.drainWhile(inst, done)
+			} else {
+				pn = vt.Catch(func() { err = inst.repo.ProcessHeader(vt.Ctx(), toWire(&raw)) })
+			}
+			if pn != nil {
+				m.fail(inst, "ProcessHeader(bulk header %d at height %d) panicked: %v", i, node.Height, pn)
+			}
+			if err != nil {
+				m.fail(inst, "ProcessHeader(bulk header %d at height %d) failed: %s", i, node.Height, err)
+			}
+			inst.acc[node], inst.held[node] = true, true
+			if parent == inst.mainTip {
+				inst.mainTip = node
+			}
+			if node.Height%10000 == 0 && m.reported(inst) == node {
+				m.autoCleaned(inst)
+			}
+		}
+		cur = node
+	}
+	m.afterStepFull(true)
+}
+
+// opAlign (real depth): when the best tip is within 15 below a multiple of 1000, extend it to
+// exactly that height (or one beyond / one short) and run a maintenance operation there, so that
+// prune and file boundaries coincide (tip 11000 => lowest kept height 1000, tip 20000 => automatic
+// clean with whatever branch shape exists at that moment).
+func (m *M) opAlign(t *rapid.T) {
+	if !m.f.RealDepth {
+		t.Skip("real depth only")
+	}
+	tip := m.reported(m.insts[0])
+	next := (tip.Height/1000 + 1) * 1000
+	if next-tip.Height > 15 {
+		t.Skip("no boundary near")
+	}
+	target := next + rapid.SampledFrom([]int{0, 0, 0, 1, -1}).Draw(t, "offset")
+	then := rapid.SampledFrom([]string{"clean", "reload", "save", "none"}).Draw(t, "then")
+	m.k.Op("align tip to %d then %s", target, then)
+	m.k.Class("tip_aligned_to_file_boundary")
+	cur := tip
+	for cur.Height < target {
+		if m.reorgTooDeep(cur, 0x1d00ffff) {
+			break
+		}
+		raw := m.newHeader(cur.Hash, cur.Raw.Timestamp, 0x1d00ffff)
+		n := m.tree.AddChild(raw)
+		m.submit(raw, fmt.Sprintf("%s child of %s@%d (align)", n.Label, cur.Label, cur.Height))
+		cur = n
+	}
+	switch then {
+	case "clean":
+		if _, ok := m.actionsEnabled["clean"]; ok {
+			m.cleanAll()
+			m.afterStepFull(true)
+		}
+	case "reload":
+		if _, ok := m.actionsEnabled["reload"]; ok {
+			m.opReload(t)
+		}
+	case "save":
+		if _, ok := m.actionsEnabled["save"]; ok {
+			m.opSave(t)
+		}
+	}
+}
+
 // opStaleOvertake extends a stale side branch (tip far below the best height) with enough work to
 // overtake the best chain: a reorganisation across (almost) the whole retained depth.
 func (m *M) opStaleOvertake(t *rapid.T) {
@@ -246,7 +346,7 @@ func (m *M) lite(inst *Inst) string {
 		}
 		var sel []*model.Node
 		for _, n := range nodes {
-			if n.Seq > m.base || sampled[n.Height] {
+			if (n.Seq > m.base && !m.bulk[n]) || sampled[n.Height] {
 				sel = append(sel, n)
 			}
 		}
